@@ -42,9 +42,12 @@ func DetectDeviceConfigChanges(ctx context.Context) <-chan bool {
 			}
 
 			name := strings.ToLower(event.Name)
-			if strings.HasSuffix(name, "toml") {
+			if strings.HasSuffix(name, ".toml") {
 				log.Info(fmt.Sprintf("config change detected: %s", event.Name), logger.Info)
-				change <- true
+				select {
+				case change <- true:
+				case <-ctx.Done():
+				}
 			}
 		}
 	}()
